@@ -599,9 +599,17 @@ func NewPackage(pkgPath string, pkg *ast.Package, conf *Config) (p *gogen.Packag
 		gopSyms[name] = true
 	}
 
+	// load Go files in a fixed order (the order of a map iteration changes
+	// from run to run, and so would the reported errors)
+	gofnames := make([]string, 0, len(pkg.GoFiles))
+	for fname := range pkg.GoFiles {
+		gofnames = append(gofnames, fname)
+	}
+	sort.Strings(gofnames)
+
 	gofiles := make([]*ast.File, 0, len(pkg.GoFiles))
-	for _, gof := range pkg.GoFiles {
-		f := fromgo.ASTFile(gof, 0)
+	for _, fname := range gofnames {
+		f := fromgo.ASTFile(pkg.GoFiles[fname], 0)
 		gofiles = append(gofiles, f)
 		ctx := &blockCtx{
 			pkg: p, pkgCtx: ctx, cb: p.CB(), relBaseDir: relBaseDir,
